@@ -22,7 +22,7 @@ META = {
             "Oracle on implementation output (random mjgen models with equality, friction-loss, limit, pyramidal and elliptic contacts of condim 1/3/4/6, tendons, springs/dampers, actuators, "
             "gravity compensation, joint and Cartesian applied forces; Euler, implicit, implicitfast; Newton, CG, PGS (PGS with pyramidal cones only, see C10-F1); mjDSBL_EULERDAMP / mjDSBL_DAMPER): "
             "qfrc_inverse - applied = forward residual to 1e-9 for the primal solvers whether converged or not; after a converged forward solve qfrc_inverse = qfrc_applied + J'xfrc_applied + "
-            "qfrc_actuator and efc_force(inverse) = efc_force(forward) to 1e-6*scale (1e-4*scale for PGS, whose stopping test bounds its accuracy only loosely), also with mjENBL_INVDISCRETE at the discrete acceleration produced by mj_Euler / mj_implicit, and the "
+            "qfrc_actuator and efc_force(inverse) = efc_force(forward) to 1e-6*scale (1e-4*scale for PGS, whose stopping test bounds its accuracy only loosely), also with mjENBL_INVDISCRETE at the discrete acceleration produced by mj_Euler / mj_implicit (plus 1e5 x the forward residual, which the constraint stiffness amplifies there), and the "
             "mj_compareFwdInv statistics equal the independently computed norms. The fixed scene of the repaired finding C09-F1 (one damped hinge, Euler, dampers disabled) is checked on every run.",
     "note": "Trusted: Coq kernel + std-lib real-number axioms; hand-written models Model/FwdInv.v, Model/ConstraintUpdate.v; correspondence harness (gcc, drivers c09_fwdinv.c / c12_update.c, "
             "Coq PrimFloat evaluation). IEEE rounding is outside every theorem.",
@@ -80,6 +80,7 @@ def parse(line):
     r["jar"] = jar
     r["tbias"] = nums(1)[0] if p < len(t) else 0.0
     r["ds"], r["jnt_m2"], r["jnt_single"], r["anyd"] = ints(4) if p + 4 <= len(t) else (0, 0, 0, 1)
+    r["nisland"], r["noninv"], r["enable"], r["disable"], r["sparse"] = ints(5) if p + 5 <= len(t) else (0, 0, 0, 0, 0)
     return r
 
 
@@ -219,7 +220,8 @@ def oracle(ctx, recs, stats):
         combos[name] = combos.get(name, 0) + 1
         case = {"src": r["cfg"]["src"], "replay": {"seed": r["seed"], "step": r["step"]}, "integrator": INTEG[r["integ"]], "solver": SOLVER[r["solver"]],
                 "cone": "elliptic" if r["cone"] else "pyramidal", "mjDSBL_EULERDAMP": bool(r["eoff"]), "mjDSBL_DAMPER": bool(r["doff"]), "nv": nv, "nefc": r["nefc"],
-                "max |tendon-armature bias|": r["tbias"], "damping-source stratum": r["ds"], "joints with several damped/armature actuators": r["jnt_m2"], "rows": {"equality": r["ne"], "friction": r["nf"], "elliptic": r["nell"], "pyramidal": r["npyr"], "limit": r["nlim"]}, "niter": r["niter"]}
+                "islands": r["nisland"], "island permutation not an involution": bool(r["noninv"]), "enableflags": r["enable"], "disableflags": r["disable"],
+                "sparse jacobian": bool(r["sparse"]), "max |tendon-armature bias|": r["tbias"], "damping-source stratum": r["ds"], "joints with several damped/armature actuators": r["jnt_m2"], "rows": {"equality": r["ne"], "friction": r["nf"], "elliptic": r["nell"], "pyramidal": r["npyr"], "limit": r["nlim"]}, "niter": r["niter"]}
         sig0 = {"integrator": INTEG[r["integ"]], "cone": case["cone"]}
         def viol(site, cls, expected, observed, theorem):
             ctx.violation("impl_violation", case, expected=expected, observed=observed, theorem=theorem, signature=dict(sig0, site=site, **{"class": cls}))
@@ -273,7 +275,10 @@ def oracle(ctx, recs, stats):
         if r["disc"]:
             ed = mx([r["inverse_d"][i] - tot[i] for i in range(nv)]) / sc
             efd = mx([a - b for a, b in zip(r["force"], r["force_inv_d"])]) / fs if r["nefc_d"] == r["nefc"] else float("inf")
-            if ed > TOL or efd > TOL:
+            # the inverse is evaluated at a' = a_c - M^-1 * (forward residual): the solver's remaining residual is amplified by the constraint
+            # stiffness (M^-1 J' D J), so the admissible mismatch grows with it (the gate keeps the residual <= 1e-9*scale, i.e. this slack <= 1e-4*scale)
+            slack = 1e5 * mx(res)
+            if ed > TOL + slack / sc or efd > TOL + slack / fs:
                 cls = "euler-damper-disabled" if (r["integ"] == 0 and r["doff"] and not r["eoff"]) else "invdiscrete-mismatch"
                 viol("mj_discreteAcc", cls, "with mjENBL_INVDISCRETE at the discrete acceleration of the integrator: qfrc_inverse = applied forces, efc_force = forward efc_force within %g*scale" % TOL,
                      {"relative qfrc_inverse mismatch": ed, "relative efc_force mismatch": efd}, "C09_discrete_partial")
@@ -345,6 +350,17 @@ def run(ctx):
     ctx.cov["euler_invdiscrete_records_damped_only_through_several_actuators"] = nm2
     if not rep and nm2 < 3:
         ctx.broken.append(("oracle", "too few Euler/invdiscrete records whose only damping comes from several actuators on one joint", "%d" % nm2))
+    ctx.cov["records_by_option"] = {
+        "diagexact": sum(1 for r in recs if r["enable"] & 32), "override": sum(1 for r in recs if r["enable"] & 1),
+        "island disabled": sum(1 for r in recs if r["disable"] & (1 << 18)), "warmstart disabled": sum(1 for r in recs if r["disable"] & (1 << 9)),
+        "refsafe disabled": sum(1 for r in recs if r["disable"] & (1 << 12)), "gravity disabled": sum(1 for r in recs if r["disable"] & (1 << 7)),
+        "spring disabled": sum(1 for r in recs if r["disable"] & (1 << 5)), "sparse jacobian": sum(1 for r in recs if r["sparse"]),
+        ">= 2 islands": sum(1 for r in recs if r["nisland"] >= 2),
+        "efc<->island permutation not an involution": sum(1 for r in recs if r["noninv"]),
+        "diagexact with a non-involutive island permutation": sum(1 for r in recs if r["noninv"] and r["enable"] & 32)}
+    nni = ctx.cov["records_by_option"]["diagexact with a non-involutive island permutation"]
+    if not rep and nni < 5:
+        ctx.broken.append(("oracle", "too few records combine diagexact with islands whose rows interleave in efc order", "%d" % nni))
     ntb = sum(1 for r in recs if r["tbias"] > 1e-6)
     ctx.cov["records_with_nonzero_tendon_armature_bias"] = ntb
     if not rep and ntb < 0.1 * max(1, len(recs)):
